@@ -173,6 +173,16 @@ structure FbSlot where
 
 instance : Inhabited FbSlot := ⟨{}⟩
 
+/-- `<clock> <serial|->`; an explicit serial 0 cannot come out of the model before 2^64 generators -/
+def fbPrefix? (clk ser : String) : Option FbPrefix := do
+  let c ← clk.toNat?
+  if ser == "-" then pure ⟨c, 0⟩
+  else
+    let s ← ser.toNat?
+    if s == 0 then none else pure ⟨c, s⟩
+
+def showP (p : FbPrefix) : String := if p.serial == 0 then s!"{p.clock}" else s!"{p.clock}.{p.serial}"
+
 def checkFb (lines : List String) : CaseResult := Id.run do
   let mut r : CaseResult := {}
   let mut slots : Array FbSlot := #[]
@@ -183,9 +193,9 @@ def checkFb (lines : List String) : CaseResult := Id.run do
     match words ln with
     | ["fgen", g] =>
       if g.toNat? == some slots.size then slots := slots.push {} else r := { r with bad := s!"line {n}: fgen index" :: r.bad }
-    | "fid" :: rest =>
-      match nats? rest with
-      | some [g, p, c] =>
+    | ["fid", g, clk, ser, c] =>
+      match g.toNat?, fbPrefix? clk ser, c.toNat? with
+      | some g, some p, some c =>
         if h : g < slots.size then
           let m0 : FbGen := match slots[g].g with
             | some m => m
@@ -193,33 +203,38 @@ def checkFb (lines : List String) : CaseResult := Id.run do
           if slots[g].g.isNone then
             for j in [0:slots.size] do
               match slots[j]!.g with
-              | some o => if o.pfx == p then
-                  r := { r with specs := s!"fallback_same_prefix: generators {j} and {g} share prefix {p}" :: r.specs }
+              | some o =>
+                if o.pfx == p then
+                  r := { r with specs := s!"fallback_same_prefix: generators {j} and {g} share prefix {showP p}" :: r.specs }
+                -- creation law of the model (`fbProgram`): generators created one after the other carry consecutive
+                -- serial numbers, or none of them carries one
+                if (o.pfx.serial == 0) != (p.serial == 0) || (p.serial != 0 && o.pfx.serial + g != p.serial + j) then
+                  r := { r with diffs := s!"line {n}: fallback generators {j} and {g}: prefixes {showP o.pfx} and {showP p} are not consecutive creations" :: r.diffs }
               | none => pure ()
           let m1 := fbStep true { m0 with out := [] } 0
           match m1.out with
           | [x] => if x.pfx != p || x.n != c then
-              r := { r with diffs := s!"line {n}: fallback gen {g}: model ({x.pfx},{x.n}) impl ({p},{c})" :: r.diffs }
+              r := { r with diffs := s!"line {n}: fallback gen {g}: model ({showP x.pfx},{x.n}) impl ({showP p},{c})" :: r.diffs }
           | _ => r := { r with diffs := s!"line {n}: model emitted nothing" :: r.diffs }
-          keys := keys.push (p * u64 + c)
+          keys := keys.push ((p.clock * u64 + p.serial) * u64 + c)
           slots := slots.set g { g := some { m1 with counter := c } } h
         else r := { r with bad := s!"line {n}: unknown generator" :: r.bad }
-      | _ => r := { r with bad := s!"line {n}: {ln}" :: r.bad }
-    | "fsnap" :: rest =>
-      match nats? rest with
-      | some [g, p, c] =>
+      | _, _, _ => r := { r with bad := s!"line {n}: {ln}" :: r.bad }
+    | ["fsnap", g, clk, ser, c] =>
+      match g.toNat?, fbPrefix? clk ser, c.toNat? with
+      | some g, some p, some c =>
         if h : g < slots.size then
           match slots[g].g with
           | some m => if m.pfx != p || m.counter != c then
-              r := { r with diffs := s!"line {n}: fallback snapshot: model ({m.pfx},{m.counter}) impl ({p},{c})" :: r.diffs }
+              r := { r with diffs := s!"line {n}: fallback snapshot: model ({showP m.pfx},{m.counter}) impl ({showP p},{c})" :: r.diffs }
           | none => pure ()
         else r := { r with bad := s!"line {n}: unknown generator" :: r.bad }
-      | _ => r := { r with bad := s!"line {n}: {ln}" :: r.bad }
+      | _, _, _ => r := { r with bad := s!"line {n}: {ln}" :: r.bad }
     | "fraw" :: rest => r := { r with specs := s!"fallback_malformed: {" ".intercalate rest}" :: r.specs }
     | "panic" :: rest => r := { r with specs := s!"panic: {" ".intercalate rest}" :: r.specs }
     | _ => r := { r with bad := s!"line {n}: {ln}" :: r.bad }
   match firstDupNat keys with
-  | some k => r := { r with specs := s!"fallback_duplicate: id (prefix {k / u64}, n {k % u64}) handed out twice" :: r.specs }
+  | some k => r := { r with specs := s!"fallback_duplicate: id (clock {k / u64 / u64}, serial {k / u64 % u64}, n {k % u64}) handed out twice" :: r.specs }
   | none => pure ()
   return { r with nontrivial := keys.size > 1 }
 
